@@ -300,11 +300,19 @@ func solveObligation(fr *FuncResult, idx int, opts SolveOpts, id int) OblResult 
 		res.Agree = map[string]string{}
 		var mu sync.Mutex
 		var wg sync.WaitGroup
+		// every solver is asked (agreement is checked); once one has answered definitely the others get a grace
+		// period of 15 s to agree or disagree, so that one slow solver does not cost the full limit on every obligation
+		actx, acancel := context.WithCancel(context.Background())
+		defer acancel()
+		var once sync.Once
 		for i, sd := range solvers {
 			wg.Add(1)
 			go func(i int, sd solverDef) {
 				defer wg.Done()
-				st, out, el := runSolver(sd, script, strings.TrimSuffix(file, ".smt2")+fmt.Sprintf("_%d.smt2", i), opts.Timeout, opts.Seed)
+				st, out, el := runSolverCtx(actx, sd, script, strings.TrimSuffix(file, ".smt2")+fmt.Sprintf("_%d.smt2", i), opts.Timeout, opts.Seed)
+				if st == "unsat" || st == "sat" {
+					once.Do(func() { time.AfterFunc(15*time.Second, acancel) })
+				}
 				mu.Lock()
 				defer mu.Unlock()
 				res.Agree[sd.name] = st
